@@ -39,6 +39,8 @@ GETTERS = {
     "a_plus_10": lambda self: self.a + 10,
     "p_times_2": lambda self: self.p * 2,
     "a_plus_b": lambda self: self.a + self.b,
+    "c_plus_1": lambda self: self.c + 1,
+    "len_xs": lambda self: len(self.xs),
 }
 
 
@@ -171,8 +173,22 @@ class World:
         return out
 
     def make(self, o):
-        """Receiver for abstract state o, reached by a real history: constructor (+ property reads/overrides)."""
-        return self.gamma({"t": "obj", "c": o["c"], "a": o["a"]})
+        """Receiver for abstract state o, reached by a real history: constructor, then overrides, then the reads that
+        fill the caches the state has (None when that history does not reproduce the state)."""
+        obj = self.gamma({"t": "obj", "c": o["c"], "a": o["a"]})
+        xs = {k: v for k, v in o.get("x", {}).items() if k != "_" and v["t"] != "missing"}
+        if xs:
+            ov = o.get("ov", {})
+            order = [p["name"] for p in self.scn["classes"][o["c"]]["props"]]
+            for p in order:
+                if p in xs and ov.get(p):
+                    setattr(obj, p, self.gamma(xs[p]))
+            for p in order:
+                if p in xs and not ov.get(p):
+                    getattr(obj, p)
+            if self.alpha(obj)["x"] != {"_": S.MISSING, **{p: o["x"].get(p, S.MISSING) for p in order}}:
+                return None
+        return obj
 
     def class_defaults(self, reg):
         vals, toks = [], []
@@ -234,6 +250,14 @@ def call(world, obj, act, argsink):
     if op == "delattr":
         delattr(obj, act["attr"])
         return obj
+    if op == "read":
+        return getattr(obj, act["p"])
+    if op == "override":
+        setattr(obj, act["p"], arg(act["v"]))
+        return obj
+    if op == "delprop":
+        delattr(obj, act["p"])
+        return obj
     if op == "update_top":
         return obj.update(**fl, **kw(act["kw"]))
     if op == "transform_top":
@@ -285,8 +309,11 @@ def execute(world, o, act, src="table"):
     """One event: build the receiver (and an identical peer), run the call, project everything."""
     reg = Registry()
     recv = world.make(o)
+    if recv is None:
+        return None
     peer = world.make(o)
     pre = world.alpha(recv)
+    pre["ov"] = o.get("ov", {"_": False})
     ids_pre = world.tokens(recv, reg)
     peer_pre = world.alpha(peer)
     dflt_pre, dflt_tok = world.class_defaults(reg)
@@ -330,5 +357,7 @@ def run_table(job):
     out = []
     for o in states:
         for a in acts:
-            out.append(execute(w, o, a))
+            ev = execute(w, o, a)
+            if ev is not None:
+                out.append(ev)
     return out
